@@ -1085,3 +1085,73 @@ Proof.
   destruct (mfind k (m_cache (mrun minit h))) as [id|]; simpl in *; [exists id; reflexivity|].
   destruct (memb k (m_registry (mrun minit h))); simpl in *; [discriminate|eexists; reflexivity].
 Qed.
+
+(* ================================================================== *)
+(* the ControllerRevision cache: nothing is hosted before it has synced *)
+
+Definition GInv (gs : gstate) : Prop := g_rev_synced gs = false -> insts (g_state gs) = [].
+
+Lemma step_empty_unsynced : forall e st,
+  insts st = [] ->
+  (forall n s, e <> Reconcile n (LFound s CrdOk)) ->
+  insts (fst (fst (step Composite st e))) = [].
+Proof.
+  intros e st He Hne. destruct e as [n l|n r]; simpl.
+  - destruct l as [| |s crd]; simpl.
+    + rewrite He. simpl. exact He.
+    + exact He.
+    + unfold stop_if_changed. rewrite He. simpl.
+      destruct crd; simpl; try exact He. exfalso. apply (Hne n s). reflexivity.
+  - unfold related. rewrite He. simpl. exact He.
+Qed.
+
+(* once synced, the loop is the plain one *)
+Lemma gstep_synced_is_step : forall fl st e,
+  gstep fl (mkG st true) (GEvent e) =
+  (let '(st', out, acts) := step fl st e in (mkG st' true, out, acts)).
+Proof. intros fl st e. destruct fl; reflexivity. Qed.
+
+Lemma gstep_plain : forall st e,
+  (forall n s, e <> Reconcile n (LFound s CrdOk)) ->
+  gstep Composite (mkG st false) (GEvent e) =
+  (let '(st', out, acts) := step Composite st e in (mkG st' false, out, acts)).
+Proof.
+  intros st e Hne. destruct e as [n l|n r]; [|reflexivity].
+  destruct l as [| |s crd]; try reflexivity.
+  destruct crd; try reflexivity. exfalso. apply (Hne n s). reflexivity.
+Qed.
+
+Lemma gstep_GInv : forall gs ge, GInv gs -> GInv (fst (fst (gstep Composite gs ge))).
+Proof.
+  intros [st b] ge HI. destruct ge as [|e]; [intro H; discriminate|].
+  destruct b.
+  - rewrite gstep_synced_is_step. destruct (step Composite st e) as [[st' out] acts]. intro H. discriminate.
+  - assert (He : insts st = []) by (apply HI; reflexivity).
+    assert (Hcase : (exists n s, e = Reconcile n (LFound s CrdOk)) \/ (forall n s, e <> Reconcile n (LFound s CrdOk))).
+    { destruct e as [n l|n r]; [|right; intros; discriminate].
+      destruct l as [| |s crd]; try (right; intros; discriminate).
+      destruct crd; try (right; intros; discriminate). left. exists n, s. reflexivity. }
+    destruct Hcase as [[n [s ->]]|Hne].
+    + simpl. unfold stop_if_changed. rewrite He. simpl. rewrite He. simpl. intros _. exact He.
+    + rewrite (gstep_plain st e Hne).
+      pose proof (step_empty_unsynced e st He Hne) as H.
+      destruct (step Composite st e) as [[st' out] acts]. simpl in *. intros _. exact H.
+Qed.
+
+Lemma GInv_run : forall h gs, GInv gs -> GInv (grun Composite gs h).
+Proof.
+  induction h as [|e h IH]; intros gs HI; [exact HI|].
+  simpl. apply IH. apply gstep_GInv. exact HI.
+Qed.
+
+(* In every reachable state of the composite reconcile loop: while the ControllerRevision
+   informer has not synced, no hosted controller runs (so none can sync a parent). *)
+Theorem C09_no_sync_before_revision_cache : forall h n,
+  g_rev_synced (grun Composite ginit h) = false ->
+  runningb n (g_state (grun Composite ginit h)) = false.
+Proof.
+  intros h n H. pose proof (GInv_run h ginit) as HI.
+  assert (H0 : GInv ginit) by (intro; reflexivity).
+  specialize (HI H0 H). unfold runningb. rewrite HI. reflexivity.
+Qed.
+
